@@ -21,7 +21,7 @@ import (
 // configurable: that is how single-call layers are observed ("the argument the spy receives is
 // the function's value").
 type SpyFS struct {
-	Tag   string     // "base" / "backup" / ...
+	Tag   string      // "base" / "backup" / ...
 	Inner backupfs.FS // nil = stub mode
 
 	Clock *int64 // shared logical clock: orders the calls of several spies
